@@ -376,8 +376,10 @@ func (e *exprEnv) expr(d int) []etok {
 		if e.rng.Intn(3) != 0 {
 			op := []string{"==", "<", ">", "<=", ">=", "!="}[e.rng.Intn(6)]
 			rhs := ar.expr(d)
-			if (op == "<" || op == ">") && rhs[0].k == 'o' {
-				// `<-` and `>=`-like fusions in the Go evaluator: parenthesise a signed operand
+			if op == "<" && rhs[0].k != 'n' && rhs[0].k != 'L' {
+				// `<-` is one token for the Go evaluator: a right-hand side that starts with a sign,
+				// or with a name whose EQU text starts with one, is parenthesised (comparisons are
+				// outside C07's quantifier; this keeps the generator inside what both sides agree on)
 				rhs = append(append([]etok{{'L', "("}}, rhs...), etok{'R', ")"})
 			}
 			out = append(append(out, etok{'o', op}), rhs...)
